@@ -220,6 +220,21 @@ def r4(prog, rep):
             ok, detail = False, "test not representable: %s" % e
         rep.ob("R4", "arm selection `%s` is unchanged by psi -> -psi" % mod.code(t)[:90], ok, gf.site(n), detail, key="gridfunc/test/%s" % mod.code(t)[:90])
     rep.floor("R4.arm-tests", n_tests, 3)
+    # the separatrix spacing handed to the grid function: chosen among the candidate average
+    # spacings by magnitude, so that the choice does not depend on the sign of psi
+    n_sel = 0
+    for t in tables.all_topologies(prog):
+        for sname, seg in sorted(t.segments.items()):
+            for fld in ("grad_start", "grad_end"):
+                v = seg.get(fld)
+                if isinstance(v, Rat):
+                    sel = [a for a in v.all_atoms() if a.fname in ("min_abs", "min_signed", "max_signed")]
+                    if sel:
+                        n_sel += 1
+                        bad = [a.fname for a in sel if a.fname != "min_abs"]
+                        rep.ob("R4", "%s: %s of segment %s is selected by magnitude (min(..., key=abs))" % (t.name, fld, sname), not bad, TOK,
+                               "plain min/max over quantities that change sign with psi" if bad else "", key="gridfunc/select/%s/%s/%s" % (t.name, sname, fld))
+    rep.floor("R4.selections", n_sel, 10)
     # (b) oddness of each arm
     for arm in c09.ARMS:
         label = arm[0]
